@@ -28,10 +28,13 @@ class Cfg:
         else:
             if not isinstance(value, self.tp):
                 raise ValueError(f"Invalid value of config '{self.name}'")
-        self.value = value
+        # each Configs object has its own settings
+        instance.__dict__[self.name] = value
 
     def __get__(self, instance, owner=None):
-        return self.value
+        if instance is None:
+            return self.value
+        return instance.__dict__.get(self.name, self.value)
 
 
 class Configs:
